@@ -262,7 +262,8 @@ def style_doc(s1, s2, s3, on_p):
 HIDDEN = ["E", "VisibilityType", "hidden"]
 VISIBLE = ["E", "VisibilityType", "visible"]
 HIDING_MODES = ["span-hidden", "p-hidden-inner-visible", "region-hidden", "region-opacity-0", "region-opacity-half", "first-p-hidden",
-                "span-revealed-by-animation", "span-hidden-by-animation", "initial-hidden-span-visible"]
+                "span-revealed-by-animation", "span-hidden-by-animation", "initial-hidden-span-visible",
+                "two-regions-one-opacity-0", "two-regions-one-hidden"]
 
 
 def hiding_doc(mode):
@@ -296,6 +297,11 @@ def hiding_doc(mode):
   elif mode == "initial-hidden-span-visible":
     spec["init"] = [["Visibility", HIDDEN]]
     inner["st"] = {"Visibility": VISIBLE}
+  elif mode in ("two-regions-one-opacity-0", "two-regions-one-hidden"):
+    # an invisible region that is active together with a visible one (the writers merge simultaneous regions into one cue)
+    r2 = {"id": "r2", "st": {"Opacity": 0} if mode.endswith("opacity-0") else {"Visibility": HIDDEN}}
+    spec["regions"].append(r2)
+    spec["body"]["c"][0]["c"].append(node("p", [_span("s6", "unseen")], id="p3", b=F(1), e=F(4), r="r2"))
   return spec
 
 
